@@ -11,7 +11,7 @@ exit 0  property held on everything explored (KNOWN-FINDING lines possible)
 exit 1  VIOLATION property=<id> replay=<path> [... no-failing-input-found]
 exit 2  INCONCLUSIVE (lost anchor, unsupported construct, resource limit, tool failure) -- never an alarm
 """
-import json
+import hashlib, json
 import os
 import re
 import subprocess
@@ -862,6 +862,15 @@ _WITNESS_STATS = {}
 _THOROUGH = False
 
 
+def env_seed():
+    """VERIF_SEED as a 64-bit number (any string is accepted: a non-numeric value is hashed)"""
+    v = (os.environ.get("VERIF_SEED") or "0").strip()
+    try:
+        return int(v, 0) % (1 << 64)
+    except ValueError:
+        return int(hashlib.sha256(v.encode()).hexdigest()[:16], 16)
+
+
 def find_witness(pid, deep=True):
     """a concrete history / schedule that violates property pid on the REAL library (excluding the clauses of
     open known findings): first the committed witness library and the cheap finders (fault enumeration on the
@@ -916,7 +925,7 @@ def find_witness(pid, deep=True):
     if res is None and pid in ("C10", "C19"):
         # assumed legs (text / JSON / level data / package forms): pseudo-random boundary-biased contents, deterministic per seed
         sp = os.path.join(REPLAYS, "search-%s-legs.json" % pid)
-        seed = int(os.environ.get("VERIF_SEED", "0") or 0)
+        seed = env_seed()
         json.dump({"kind": "legs_fuzz", "seed": seed, "rounds": (50000 if _THOROUGH else 5000) if deep else 400}, open(sp, "w"))
         rc, lines, err = run_replay(sp, timeout_s=120)
         _WITNESS_STATS[pid] = (err or "").strip().split("\n")[-1][:200]
@@ -937,7 +946,7 @@ def find_witness(pid, deep=True):
         # thorough tier: a larger budget and one more level of depth (bounded exploration, never counted as proof)
         q = {"kind": "search", "property": pid, "depth": 4, "budget_ms": 45000 if _THOROUGH else 25000, "exclude": excl}
         if _THOROUGH:
-            q.update({"sample_ms": 45000, "sample_depth": 7, "seed": int(os.environ.get("VERIF_SEED", "0") or 0)})
+            q.update({"sample_ms": 45000, "sample_depth": 7, "seed": env_seed()})
         # clauses that are the executable form of the PROVED contracts (not of the ideal property) count only
         # together with a violation of the ideal clause in the same history
         q["require"] = {"C04": ["match_order.time_priority"], "C19": ["pop.fifo_order"]}.get(pid, [])
@@ -1063,7 +1072,7 @@ def main(argv):
             print(err)
         return rc
     tier = os.environ.get("VERIF_TIER", "quick")
-    seed = int(os.environ.get("VERIF_SEED", "0") or 0)
+    seed = env_seed()
     args = argv[1:]
     if "--tier" in args:
         i = args.index("--tier")
